@@ -1057,3 +1057,63 @@ Proof.
   { intros m Hm He s Hs. cbn in Hm. destruct Hm as [<-|[]]. vm_compute in He. discriminate. }
   vm_compute; reflexivity.
 Qed.
+
+(* ================= Plan(script, false) of a line_format pipeline (fragment 3), and of all three fragments =================
+   The statement of bp_correct2 over the reference in which the line travels with the state (log_rows3), written out. *)
+Theorem logql_breakpoint_plan_line_format_proof :
+  forall (RG : ReGroups) re_match parse_float json_get hash_labels (tie : forall A : Type, list A -> list A),
+    (forall A (l : list A), Permutation (tie A l) l) ->
+    forall q c d, in_fragment3 q = true -> oracle_ok re_match parse_float q -> ctx_ok c = true -> db_ok c d ->
+    width_guard q = true -> absent_guard re_match q d ->
+    exists sel rows outs,
+      bp_select q c = Some sel
+      /\ eval re_match parse_float json_get hash_labels tie (to_sqldb c d) sel = Some rows
+      /\ map row_out rows = map Some outs
+      /\ Permutation outs (log_rows3 re_match parse_float json_get hash_labels q c d)
+      /\ ts_sorted (c_asc c) outs.
+Proof.
+  intros RG re_match parse_float json_get hash_labels tie Htie [ms ppl] c d Hfrag Hor Hctx Hdb Hw Hg.
+  unfold in_fragment3 in Hfrag. cbn [sel_matchers sel_pipeline] in Hfrag.
+  apply andb_prop in Hfrag. destruct Hfrag as [Hfrag Hsimp]. apply andb_prop in Hfrag. destruct Hfrag as [Hfrag Hex].
+  apply andb_prop in Hfrag. destruct Hfrag as [Hne Hall].
+  unfold width_guard in Hw. cbn [sel_matchers] in Hw. apply Nat.leb_le in Hw.
+  apply (bp_plan2_correct re_match parse_float json_get hash_labels tie Htie c d Hctx ms Hdb); try assumption.
+  - intros ->. discriminate.
+  - lia.
+  - clear -Hex. induction ppl as [|s r IH]; [discriminate|]. cbn [existsb] in *. apply orb_prop in Hex. destruct Hex as [H|H].
+    + unfold jstage. rewrite H. now rewrite !orb_true_r.
+    + rewrite (IH H). apply orb_true_r.
+Qed.
+Theorem logql_breakpoint_plan_all_proof :
+  forall (RG : ReGroups) re_match parse_float json_get hash_labels (tie : forall A : Type, list A -> list A),
+    (forall A (l : list A), Permutation (tie A l) l) ->
+    forall q c d, in_fragment q || in_fragment2 q || in_fragment3 q = true -> oracle_ok re_match parse_float q -> ctx_ok c = true ->
+    db_ok c d -> width_guard q = true -> absent_guard re_match q d ->
+    exists sel rows outs,
+      bp_select q c = Some sel
+      /\ eval re_match parse_float json_get hash_labels tie (to_sqldb c d) sel = Some rows
+      /\ map row_out rows = map Some outs
+      /\ Permutation outs (log_rows3 re_match parse_float json_get hash_labels q c d)
+      /\ ts_sorted (c_asc c) outs.
+Proof.
+  intros RG re_match parse_float json_get hash_labels tie Htie q c d Hfrag Hor Hctx Hdb Hw Hg.
+  destruct (in_fragment q || in_fragment2 q) eqn:E12.
+  - destruct (logql_breakpoint_plan_proof RG re_match parse_float json_get hash_labels tie Htie q c d E12 Hor Hctx Hdb Hw Hg)
+      as [sel [rows [outs [H1 [H2 [H3 [H4 H5]]]]]]].
+    exists sel, rows, outs. split; [exact H1|]. split; [exact H2|]. split; [exact H3|]. split; [|exact H5].
+    assert (Hn : no_lfmt (sel_pipeline q) = true).
+    { apply orb_prop in E12. destruct E12 as [E|E].
+      - unfold in_fragment in E. apply andb_prop in E. destruct E as [_ E]. now apply sup_no_lfmt.
+      - unfold in_fragment2 in E. apply andb_prop in E. destruct E as [E _]. apply andb_prop in E. destruct E as [_ E].
+        now apply frag2_no_lfmt. }
+    rewrite (log_rows3_no_lfmt re_match parse_float json_get hash_labels q c d Hn). exact H4.
+  - cbn [orb] in Hfrag. now apply logql_breakpoint_plan_line_format_proof.
+Qed.
+(* the statement Plan(script, false) builds for the example query of line_format_guards_met (whose hypotheses hold) evaluates
+   to the formatted line: the breakpoint plan of a fragment-3 pipeline executed by SqlEval *)
+Example line_format_bp_evaluates :
+  match bp_select ex4_query ex_ctx with
+  | Some sel => option_map (map row_out) (eval (RG := no_groups) ex4_re no_float ex2_json ex2_hash tie_id (to_sqldb ex_ctx ex2_db) sel)
+  | None => None end
+  = Some [Some {| o_fp := 102; o_labels := [("b", "1"); ("lvl", "info")]; o_line := "info: done {x}"; o_ts := 1700000000000000005 |}].
+Proof. vm_compute; reflexivity. Qed.
